@@ -89,6 +89,18 @@ Check (constituents_spec : forall t,
 Check (atoms_spec : forall t,
   res (atoms_c t) = atoms_p t /\ depth (atoms_c t) = S (nesting t)).
 
+(* ---- nt::write_term / write_triple / NtSerializer::serialize_triples ------------------------- *)
+(* the bytes written for a term of any kind / for a document *)
+Check (nt_term_erasure : forall t, res (nt_term_c t) = nt_term_p t).
+Check (nt_doc_erasure : forall ts, res (nt_doc_c ts) = nt_doc_p ts).
+(* two frames per level of quotation, none per byte of any string *)
+Check (nt_term_depth : forall t,
+  (2 + 2 * nesting t <= depth (nt_term_c t) <= 3 + 2 * nesting t)%nat).
+(* a whole document: none per statement either *)
+Check (nt_doc_depth : forall ts, (depth (nt_doc_c ts) <= 7 + 2 * doc_nesting ts)%nat).
+(* the dependence on the nesting is real *)
+Check (nt_term_depth_needs_nesting : forall c : nat, exists t, (depth (nt_term_c t) > c)%nat).
+
 (* ---- non-vacuity: concrete depths, original vs patched --------------------------------------- *)
 Definition reject_all : matcher := fun _ => false.
 Definition accept_all : matcher := fun _ => true.
@@ -150,6 +162,25 @@ Example ex_constituents :
   length (res (atoms_c t)) = 5%nat.
 Proof. vm_compute. repeat split. Qed.
 
+(* N-Triples: 300 statements whose literals hold 50 escaped bytes each: 7 frames; quoted two deep: 11 *)
+Example ex_nt_doc_flat :
+  depth (nt_doc_c (repeat (Iri [97], Iri [112], LitLang (repeat 34 50) [101; 110]) 300)) = 7%nat.
+Proof. vm_compute. reflexivity. Qed.
+Example ex_nt_doc_nested :
+  let q := Triple (Triple (Bnode [98]) (Iri [112]) (LitDt [10] [120])) (Iri [112]) (Var [118]) in
+  depth (nt_doc_c (repeat (q, Iri [112], Iri [111]) 300)) = 11%nat /\ doc_nesting [(q, Iri [112], Iri [111])] = 2%nat.
+Proof. vm_compute. split; reflexivity. Qed.
+(* the line written for the statement <a> <p> LIT@en where LIT is a quote followed by a line feed *)
+Example ex_nt_doc_result :
+  res (nt_doc_c [(Iri [97], Iri [112], LitLang [34; 10] [101; 110])]) =
+  [60; 97; 62; 32; 60; 112; 62; 32; 34; 92; 34; 92; 110; 34; 64; 101; 110; 46; 10].
+Proof. vm_compute. reflexivity. Qed.
+(* a quoted triple with a blank node and a typed literal holding U+00E9 *)
+Example ex_nt_term_result :
+  res (nt_term_c (Triple (Bnode [98]) (Iri [112]) (LitDt [233] [120]))) =
+  [60; 60; 95; 58; 98; 32; 60; 112; 62; 32; 34; 195; 169; 34; 94; 94; 60; 120; 62; 62; 62].
+Proof. vm_compute. reflexivity. Qed.
+
 Print Assumptions patched_depth_bounded.
 Print Assumptions original_depth_unbounded.
 Print Assumptions patches_preserve_results.
@@ -184,3 +215,8 @@ Print Assumptions find_subject_depth.
 Print Assumptions find_sound.
 Print Assumptions constituents_spec.
 Print Assumptions atoms_spec.
+Print Assumptions nt_term_erasure.
+Print Assumptions nt_doc_erasure.
+Print Assumptions nt_term_depth.
+Print Assumptions nt_doc_depth.
+Print Assumptions nt_term_depth_needs_nesting.
